@@ -321,6 +321,28 @@ def via_config_path(out: Outcome, case, eps: float, epsp: float) -> None:
                      f"impossible under {dist}", path="noise-model-to-results")
         for msg in mc.six_sigma_miss(counts, dist, 200):
             out.warnings.append(f"V2 BitStrings with detection errors outside 6 sigma: {msg}")
+        # the same rates coming from the device's default noise model (prefer_device_noise_model=True)
+        import dataclasses
+
+        import pulser
+        from pulser.devices import MockDevice
+
+        dev = dataclasses.replace(MockDevice, default_noise_model=nm)
+        reg = pulser.Register.from_coordinates([(0.0, 0.0), (30.0, 0.0)], prefix="q")
+        seq_d = pulser.Sequence(reg, dev)
+        seq_d.declare_channel("ryd", "rydberg_global")
+        seq_d.add(pulser.Pulse.ConstantPulse(100, 10.0, 0.0, 0.0), "ryd")
+        np.random.seed(int(case.get("npseed", 0)) + 8)
+        res_d = QutipBackendV2(seq_d, config=QutipConfig(observables=[BitStrings(num_shots=200), StateResult()],
+                                                        prefer_device_noise_model=True)).run()
+        counts_d = dict(res_d.bitstrings[-1])
+        out.evaluations += 1
+        impossible = [k for k in counts_d if k not in dist]
+        if impossible or sum(counts_d.values()) != 200:
+            out.fail("detection-error-rates",
+                     f"V2 BitStrings emulating the device's noise model (p_false_pos={eps}, p_false_neg={epsp}, "
+                     f"prefer_device_noise_model=True) produced {counts_d}, impossible under {dist}",
+                     path="device-noise-model-to-results")
 
 
 def gen_kernel(rng) -> dict:
@@ -637,8 +659,10 @@ def run_smoke(drv, case) -> Outcome:
         nm = NoiseModel(**noise) if noise else NoiseModel()
         np.random.seed(int(case.get("npseed", 0)))
         rate = float(case.get("rate", 1.0))
-        emu = QutipEmulator.from_sequence(seq, sampling_rate=rate, config=SimConfig.from_noise_model(nm),
-                                          evaluation_times=[t * T / 1000 for t in rel_times if t * T / 1000 <= T / 1000])
+        eval_full = bool(case.get("eval_full"))
+        emu = QutipEmulator.from_sequence(
+            seq, sampling_rate=rate, config=SimConfig.from_noise_model(nm),
+            evaluation_times="Full" if eval_full else [t * T / 1000 for t in rel_times if t * T / 1000 <= T / 1000])
         init = None
         if case.get("init"):
             import qutip
@@ -647,11 +671,27 @@ def run_smoke(drv, case) -> Outcome:
             v = np.array([mc.uncq(x) for x in case["init"]], dtype=complex)
             dd, nn = 2, int(spec["n"])          # ground-rydberg only: two levels [r, g]
             if v.size == dd**nn:
-                init = qutip.Qobj(v.reshape(-1, 1), dims=[[dd] * nn, [1] * nn])
+                init = qutip.Qobj(v.reshape(-1, 1), dims=[[dd] * nn, [1] * nn])      # amplitudes on (r, g)
                 emu.set_initial_state(init)
+                init_v2, init_eig = init, ("r", "g")
+                if case.get("init_eig") == ["g", "r"]:
+                    # the same physical state written on the eigenstates (g, r): every digit flipped
+                    w = v.reshape([2] * nn)
+                    for ax in range(nn):
+                        w = np.flip(w, axis=ax)
+                    init_v2 = qutip.Qobj(w.reshape(-1, 1), dims=[[dd] * nn, [1] * nn])
+                    init_eig = ("g", "r")
         legacy = emu.run()
+        random_noise = bool(noise and any(k in noise for k in ("temperature", "amp_sigma", "state_prep_error")))
+        out.evaluations += 1
+        if random_noise and hasattr(legacy, "_meas_basis"):
+            out.fail("legacy-stochastic-noise",
+                     f"legacy run() with random noise {sorted(noise)} (runs={noise.get('runs')}) returned a single "
+                     f"coherent trajectory instead of results over the noise realisations", noise="+".join(sorted(noise)))
+            return out
         # the times the legacy emulator was asked for, plus both end points (written out, not read back)
-        own_times = sorted({t * T / 1000 for t in rel_times} | {0.0, T / 1000})
+        own_times = [k / 1000 for k in range(T + 1)] if eval_full else \
+            sorted({t * T / 1000 for t in rel_times} | {0.0, T / 1000})
         out.detail = dict(T=T, basis=emu.basis_name, times=rel_times)
         out.evaluations += 1
         n_atoms = int(spec["n"])
@@ -677,6 +717,21 @@ def run_smoke(drv, case) -> Outcome:
                     if abs(np.trace(m) - 1) > 2e-5 or np.max(np.abs(m - m.conj().T)) > 1e-8 or ev.min() < -1e-6:
                         out.fail("density-matrix-physical",
                                  f"trace {np.trace(m)}, hermiticity {np.max(np.abs(m - m.conj().T)):.2g}, min eig {ev.min():.2g}")
+            if eval_full:
+                # every returned state is retrievable at its own time (and the final one as such)
+                for k, t in enumerate(own_times):
+                    out.evaluations += 1
+                    if legacy.get_state(t, ignore_global_phase=False) != legacy.states[k].tidyup():
+                        j = [i for i, st in enumerate(legacy.states)
+                             if legacy.get_state(t, ignore_global_phase=False) == st.tidyup()]
+                        out.fail("legacy-get-state-time",
+                                 f"get_state({t}) returns the state of step {j[:1]} instead of step {k} (T={T}, 'Full')",
+                                 what="previous-step" if j[:1] == [k - 1] else "other")
+                        break
+                out.evaluations += 1
+                if legacy.get_final_state(ignore_global_phase=False) != legacy.states[-1].tidyup() \
+                        and not any(f.clause == "legacy-get-state-time" for f in out.fails):
+                    out.fail("legacy-get-state-time", "get_final_state() is not the last state", what="final")
             if case.get("zero_drive"):
                 out.evaluations += 1
                 a, b = legacy.states[0].full(), legacy.states[-1].full()
@@ -708,7 +763,7 @@ def run_smoke(drv, case) -> Outcome:
             if init is not None:
                 from pulser_simulation import QutipState
 
-                extra["initial_state"] = QutipState(init, eigenstates=("r", "g"))
+                extra["initial_state"] = QutipState(init_v2, eigenstates=init_eig)
             cfg = QutipConfig(observables=[state_obs], noise_model=nm, sampling_rate=rate, **extra)
             backend = QutipBackendV2(seq, config=cfg)
             res = backend.run()
@@ -720,6 +775,9 @@ def run_smoke(drv, case) -> Outcome:
                          reason="float-T*1e-3>T/1000")
             elif "incompatible dimensions" in msg:
                 out.fail("v2-runs", f"QutipBackendV2.run raises: {msg}", levels=3, noise="stochastic")
+            elif noise and noise.get("with_leakage"):
+                out.fail("v2-runs", f"QutipBackendV2 raises with a leakage noise model the legacy emulator runs: {msg}",
+                         levels="leakage", noise="eff_noise")
             else:
                 out.fail("v2-runs", f"QutipBackendV2 raises on a sequence the legacy emulator runs: {msg}",
                          levels="?", noise="?")
@@ -770,7 +828,8 @@ def run_smoke(drv, case) -> Outcome:
 
 def gen_smoke(rng) -> dict:
     label = rng.choice(["rabi", "zero", "gr2", "gr2", "delay-pulse", "three-level", "three-level-noise",
-                        "dephasing", "xy", "critical-T", "initial-state", "idle-pulse-rates", "idle-pulse-rates"])
+                        "dephasing", "xy", "critical-T", "initial-state", "initial-state", "idle-pulse-rates",
+                        "idle-pulse-rates", "full-times", "leakage", "doppler"])
     amp = rng.choice([3.0, 6.283185307179586, 10.0])
     dur = rng.choice([64, 100, 120, 200, 300])
     n = rng.choice([1, 2])
@@ -800,6 +859,16 @@ def gen_smoke(rng) -> dict:
         segs = [dict(ch="ryd", dur=rng.choice([52, 104, 208, 72]), amp=amp, det=0.0, phase=0.0)]
     elif label == "initial-state":
         case["init"] = flat_of(product_state(rng, 2, n))
+        if rng.random() < 0.5:
+            case["init_eig"] = ["g", "r"]
+    elif label == "full-times":
+        segs = [dict(ch="ryd", dur=rng.choice([52, 100]), amp=amp, det=0.0, phase=0.0)]
+        case["eval_full"] = True
+    elif label == "leakage":
+        noise = dict(eff_noise_opers=[[[0, 0, 0], [0, 0, 0], [1, 0, 0]]], eff_noise_rates=[rng.choice([0.5, 1.0])],
+                     with_leakage=True)
+    elif label == "doppler":
+        noise = dict(runs=rng.choice([3, 5]), samples_per_run=2, temperature=rng.choice([50.0, 1000.0]))
     elif label == "idle-pulse-rates":
         # analytic reference family: isolated atom, idle period, resonant square pulse of area theta, zero tail;
         # the answer may not depend on the sampling rate
@@ -810,6 +879,8 @@ def gen_smoke(rng) -> dict:
         case.update(area=theta, rate=rng.choice([1.0, 0.5, 0.25, 0.2, 0.1]))
     grid = [0.0, 0.25, 0.5, 0.75, 1.0]
     times = sorted(set(rng.sample(grid, rng.randint(1, 3)) + [1.0]))
+    if case.get("eval_full"):
+        times = [1.0]
     case.update(seq=dict(n=n, spacing=rng.choice([6.0, 9.0]), segments=segs), times=times, noise=noise)
     return case
 
